@@ -75,7 +75,13 @@ Definition check_C11 (c : c11_case) : bool :=
   | CMeshI p1 p2 n_ ds us rfft sh obs =>
       match build p1 p2 n_ ds us with
       | Err _ => false
-      | OK m => check_mesh (mesh_ifftn m rfft sh) obs
+      | OK m =>
+          check_mesh (mesh_ifftn m rfft sh) obs ||
+          (* an explicit shape together with the full (non-real) kind is outside the property:
+             rejection is admissible, and so is honouring the shape without the half-spectrum
+             relation on its last entry *)
+          (negb rfft && match sh with ShNone => false | _ => true end &&
+           match obs with None => true | Some _ => check_mesh (mesh_ifftn_gen false m rfft sh) obs end)
       end
   | CNames inverse vd mp obs =>
       match rename_checked inverse vd mp, obs with
